@@ -181,6 +181,16 @@ func SignWithNonce(c elliptic.Curve, d, k *big.Int, digest []byte) (r, s *big.In
 	return r, s, true
 }
 
+// SFromNonce computes s for a nonce whose r and inverse are already known
+// (pure modular arithmetic, no scalar multiplication).
+func SFromNonce(c elliptic.Curve, d, kinv, r *big.Int, digest []byte) *big.Int {
+	n := c.Params().N
+	s := new(big.Int).Mul(r, d)
+	s.Add(s, bits2int(c, digest))
+	s.Mul(s, kinv)
+	return s.Mod(s, n)
+}
+
 // DigestForS returns the integer e (as a digest of the curve's order size)
 // for which the signature with nonce k has the chosen s: e = s*k - r*d mod n.
 // Only usable through digest-level APIs when e fits the hash length; ok says so.
